@@ -188,7 +188,7 @@ func genOffset() (off fields, kind string) {
 		off[5] = mag(40000000000)
 		kind = "seconds"
 	case 6:
-		off[6] = mag(40000000000000)
+		off[6] = mag([]int{100000, 100000000000, 9000000000000, 9000000000000, 40000000000000}[r.Intn(5)])
 		kind = "ms"
 	default:
 		kind = "mixed"
